@@ -93,6 +93,14 @@ class C09(Prop):
             for mt in (2, 3):
                 h = gen.head(mt, v, 27)
                 out += [h, h + b'abc', b'\x01' + h + b'abcdefghij', h[:5]]
+        for d in range(0, 12):
+            for mt in (2, 3):
+                h = gen.head(mt, 2 ** 64 - 1 - d, 27)
+                out += [h, b'\x01\x82\x02\x03' + h, h + b'x', b'\x18\x2a' + h + b'xyz']
+        for v in (2 ** 32 - 1, 2 ** 32 - 2, 2 ** 32 - 4, 2 ** 32 - 5):
+            for mt in (2, 3):
+                h = gen.head(mt, v, 26)
+                out += [h, b'\x01' + h + b'abcdef', h + b'ab']
         out += [b'', b'\x18', b'\x5a\x00\x00\x00\x05abcde\x01', b'\xfb' + b'\x00' * 8 + b'\xf9\x7e\x00\xfa\x7f\xc0\x00\x01', b'\x78\x18' + b'a' * 24 + b'\xff\xff']
         seen = set(); u = []
         for s in out:
